@@ -5,6 +5,8 @@ import (
 	_ "go.nanomsg.org/mangos/v3/vh/c03"
 	_ "go.nanomsg.org/mangos/v3/vh/c04"
 	_ "go.nanomsg.org/mangos/v3/vh/c05"
+	_ "go.nanomsg.org/mangos/v3/vh/c06"
+	_ "go.nanomsg.org/mangos/v3/vh/c07"
 	"go.nanomsg.org/mangos/v3/vz/vexplore"
 )
 
